@@ -177,6 +177,42 @@ def r2_service_handle(ctx):
     adt = F.adt("jsonrpsee_server::middleware::rpc::RpcServiceCfg")
     okf = adt is not None and any(f["n"] == "_pending_calls" and "mpsc::Sender<()>" in f["ty"] for v in adt["variants"] for f in v["fields"])
     R.check(okf, "C10.R2", "service-carries-token", "the rpc service carries the pending-call token", "RpcServiceCfg no longer carries the pending-call token", None)
+    # ... on *every* WebSocket connection: wherever a pending-call channel is created for a connection, the service of that
+    # connection is configured with CallsAndSubscriptions{_pending_calls: <that sender>} on all paths - a configuration-
+    # dependent OnlyCalls would drop the token at once and graceful shutdown would not wait for running handlers
+    tr = ctx.tracer(follow_callers=False, follow_fields=False, inline_calls=False)
+    n = 0
+    for b in F.real_bodies():
+        if b.crate != SERVER or is_test_body(b):
+            continue
+        chans = [c for c in b.calls_to(r"mpsc::channel$") if c.ga and c.ga[0] == "()"]
+        news = b.calls_to(r"middleware::rpc::RpcService::new$")
+        if not chans or not news:
+            continue
+        for nw in news:
+            # the HTTP arm builds a calls-only service and has no session to wait for: only services built after (=
+            # dominated by) the creation of a pending-call channel are WebSocket services
+            if not any(b.dominates(ch.bb, nw.bb) for ch in chans):
+                continue
+            n += 1
+            R.fn(b)
+            # the cfg argument: the one whose type is RpcServiceCfg
+            cfg = [a for a in nw.args if op_place(a) is not None and "RpcServiceCfg" in b.locals[op_place(a)["l"]]["ty"]]
+            if not cfg:
+                R.anchor_lost("C10.R2", "RpcServiceCfg argument of RpcService::new in %s" % b.path)
+                continue
+            lv = tr.origins(b, cfg[0])
+            variants = sorted({l.detail.get("variant") if l.kind == "agg" else flow.leaf_str(l)[:50] for l in lv})
+            ok = variants == ["CallsAndSubscriptions"]
+            tok = False
+            for l in lv:
+                if l.kind == "agg" and l.detail.get("variant") == "CallsAndSubscriptions" and "_pending_calls" in l.detail["fields"]:
+                    op = l.detail["ops"][l.detail["fields"].index("_pending_calls")]
+                    for l2 in tr.origins(b, op):
+                        if l2.kind == "call" and re.search(r"mpsc::channel$", l2.detail["callee"] or ""):
+                            tok = True
+            R.check(ok and tok, "C10.R2", "%s:ws-service-always-carries-token" % fkey(b), "the WebSocket connection's service carries the pending-call token on every path", "%s configures the WebSocket connection's service as %s: on the path without CallsAndSubscriptions{_pending_calls} the token is dropped at once, graceful shutdown does not wait for the handlers that are running and `stopped` resolves early" % (short(b.path), variants), where(nw))
+    R.floor("C10.R2.ws-services", n, 2, "WebSocket service constructions (server + low-level ws::connect)")
 
 
 def r3_writer_stops_last(ctx):
